@@ -294,13 +294,14 @@ def t_additionalProperties(d, k):
 
 
 def t_dependencies(d, k):
-    val = {"a": ["b", "c"], "d": S(0)}
+    # "h" asks for a name "a" asks for as well: a name missing for two present members is two violations
+    val = {"a": ["b", "c"], "d": S(0), "h": ["b", "zz"]}
     if d == "draft3":
         val["e"] = "b"
     if d in ("draft6", "draft7"):
         val["f"] = False
         val["g"] = []
-    for members in ((), ("a",), ("a", "b"), ("a", "b", "c"), ("d",), ("d", "a", "c"), ("e",), ("e", "b"), ("f",), ("g",), ("b", "c")):
+    for members in ((), ("a",), ("a", "b"), ("a", "b", "c"), ("d",), ("d", "a", "c"), ("e",), ("e", "b"), ("f",), ("g",), ("b", "c"), ("a", "h"), ("h", "a", "c"), ("h", "b")):
         inst = {m: X(i) for i, m in enumerate(members)}
         for o in oracles([(inst, S(0))] if "d" in members else []):
             exp = []
@@ -366,7 +367,13 @@ def t_disallow(d, k):
         pairs = [(inst, {"type": [m]}) for m in members]
         for o in oracles(pairs, two=False):
             exp = [own(None) for m in members if not nerr(o, inst, {"type": [m]})]
-            yield Row("%s %s" % (lab, _bits(o)), val, inst, {k: val}, o, exp)
+            # `type` semantics for the other spellings a rewrite may ask about: a bare member, the whole list -- valid iff some member is
+            o2 = dict(o)
+            for m in members:
+                o2.setdefault((vkey(inst), vkey({"type": m})), nerr(o, inst, {"type": [m]}))
+            if len(members) > 1:
+                o2.setdefault((vkey(inst), vkey({"type": list(members)})), 0 if any(not nerr(o, inst, {"type": [m]}) for m in members) else 1)
+            yield Row("%s %s" % (lab, _bits(o)), val, inst, {k: val}, o2, exp)
 
 
 TABLES = {
